@@ -5,6 +5,7 @@ package main
 import (
 	"fmt"
 	"go/ast"
+	"go/token"
 	"go/types"
 	"math/big"
 	"strings"
@@ -172,6 +173,9 @@ func (u *Unit) libModel(st *State, e *ast.CallExpr, callee *types.Func, ca callA
 	c := u.c
 	full := callee.FullName()
 	sig := callee.Type().(*types.Signature)
+	if ca.isig != nil {
+		sig = ca.isig
+	}
 	boolT := types.Typ[types.Bool]
 	switch full {
 	case "(encoding/binary.littleEndian).Uint16", "(encoding/binary.littleEndian).Uint32", "(encoding/binary.littleEndian).Uint64",
@@ -253,6 +257,16 @@ func (u *Unit) libModel(st *State, e *ast.CallExpr, callee *types.Func, ca callA
 		u.heapWrite(st, h, fmt.Sprintf("(store %s %s %s)", cur, sRef(res), nb))
 		st.spare = append(st.spare, spareRegion{h, sRef(b.S), c.idxAdd(sOff(b.S), sLen(b.S))})
 		return Term{S: res, T: sig.Results().At(0).Type()}, true
+	case "slices.Clip":
+		// s[:len(s):len(s)]: same storage, capacity clipped; writes nothing
+		a := ca.args[0]
+		if _, ok := a.T.Underlying().(*types.Slice); ok {
+			return Term{S: fmt.Sprintf("(mk_slice %s %s %s %s)", sRef(a.S), sOff(a.S), sLen(a.S), sLen(a.S)), T: sig.Results().At(0).Type()}, true
+		}
+	case "sort.Slice":
+		if r, ok := u.sortSliceModel(st, e, ca); ok {
+			return r, true
+		}
 	case "errors.New":
 		r := c.fresh("err", "Int")
 		st.assume("(> " + r + " 1000)")
@@ -405,6 +419,133 @@ func (u *Unit) declareReaderGhost() {
 	c.declareFun("rd.content", fmt.Sprintf("(Int) (Array %s %s)", c.idxSort(), c.sortOf(u.byteT())))
 }
 
+// sortSliceModel: sort.Slice(s, func(i, j int) bool { return s[i] OP s[j] }) (or s[i].F OP s[j].F) with OP in {<, >} on integers.
+// Trusted: the result is ordered accordingly and has exactly the elements of the input (as a set, both directions).
+func (u *Unit) sortSliceModel(st *State, e *ast.CallExpr, ca callArgs) (Term, bool) {
+	c := u.c
+	if len(e.Args) != 2 {
+		return Term{}, false
+	}
+	fl, ok := ast.Unparen(e.Args[1]).(*ast.FuncLit)
+	if !ok || len(fl.Body.List) != 1 || fl.Type.Params.NumFields() != 2 {
+		return Term{}, false
+	}
+	ret, ok := fl.Body.List[0].(*ast.ReturnStmt)
+	if !ok || len(ret.Results) != 1 {
+		return Term{}, false
+	}
+	cmp, ok := ast.Unparen(ret.Results[0]).(*ast.BinaryExpr)
+	if !ok || (cmp.Op != token.LSS && cmp.Op != token.GTR) {
+		return Term{}, false
+	}
+	var names []string
+	for _, f := range fl.Type.Params.List {
+		for _, n := range f.Names {
+			names = append(names, n.Name)
+		}
+	}
+	if len(names) != 2 {
+		return Term{}, false
+	}
+	// operand shape: S[i] or S[i].F
+	shape := func(x ast.Expr, idx string) (string, string, bool) {
+		field := ""
+		x = ast.Unparen(x)
+		if se, ok := x.(*ast.SelectorExpr); ok {
+			field = se.Sel.Name
+			x = ast.Unparen(se.X)
+		}
+		ix, ok := x.(*ast.IndexExpr)
+		if !ok {
+			return "", "", false
+		}
+		id, ok := ast.Unparen(ix.Index).(*ast.Ident)
+		if !ok || id.Name != idx {
+			return "", "", false
+		}
+		return u.exprText(ix.X), field, true
+	}
+	s1, f1, ok1 := shape(cmp.X, names[0])
+	s2, f2, ok2 := shape(cmp.Y, names[1])
+	if !ok1 || !ok2 || s1 != s2 || f1 != f2 || s1 != u.exprText(e.Args[0]) {
+		return Term{}, false
+	}
+	s := u.eval(st, e.Args[0]) // the argument is passed as `any`: take the slice itself
+	if s.T == nil {
+		return Term{}, false
+	}
+	sl, ok := s.T.Underlying().(*types.Slice)
+	if !ok {
+		return Term{}, false
+	}
+	keyOf := func(elem string) (string, types.Type, bool) {
+		if f1 == "" {
+			return elem, sl.Elem(), true
+		}
+		stt, ok := sl.Elem().Underlying().(*types.Struct)
+		if !ok {
+			return "", nil, false
+		}
+		for i := 0; i < stt.NumFields(); i++ {
+			if stt.Field(i).Name() == f1 {
+				return u.fieldGet(Term{S: elem, T: sl.Elem()}, i).S, stt.Field(i).Type(), true
+			}
+		}
+		return "", nil, false
+	}
+	_, kt, ok := keyOf("x")
+	if !ok {
+		return Term{}, false
+	}
+	_, signed, isInt := intInfo(kt)
+	if !isInt {
+		return Term{}, false
+	}
+	oldBlk := u.sliceBlock(st, s)
+	u.havocSliceElems(st, s)
+	newBlk := u.sliceBlock(st, s)
+	at := func(blk, i string) string { return fmt.Sprintf("(select %s %s)", blk, c.idxAdd(sOff(s.S), i)) }
+	u.c.n++
+	a, b := fmt.Sprintf("a_q%d", u.c.n), fmt.Sprintf("b_q%d", u.c.n)
+	ka, _, _ := keyOf(at(newBlk, a))
+	kb, _, _ := keyOf(at(newBlk, b))
+	var le string
+	if c.bv {
+		op := "bvule"
+		if signed {
+			op = "bvsle"
+		}
+		le = fmt.Sprintf("(%s %s %s)", op, ka, kb)
+		if cmp.Op == token.GTR {
+			le = fmt.Sprintf("(%s %s %s)", op, kb, ka)
+		}
+	} else {
+		le = fmt.Sprintf("(<= %s %s)", ka, kb)
+		if cmp.Op == token.GTR {
+			le = fmt.Sprintf("(>= %s %s)", ka, kb)
+		}
+	}
+	zero := c.idxConst(0)
+	st.assume(fmt.Sprintf("(forall ((%s %s) (%s %s)) %s)", a, c.idxSort(), b, c.idxSort(),
+		implies(and(c.idxLe(zero, a), c.idxLt(a, b), c.idxLt(b, sLen(s.S))), le)))
+	// same elements, both directions (triggered only by reads of the respective array); opt-in (`option sort-members`)
+	// because the extra instances slow down proofs that only need the order
+	if u.ct != nil && u.ct.Options["sort-members"] {
+		st.assume(fmt.Sprintf("(forall ((%s %s)) (! %s :pattern (%s)))", a, c.idxSort(), implies(and(c.idxLe(zero, a), c.idxLt(a, sLen(s.S))),
+			fmt.Sprintf("(exists ((%s %s)) %s)", b, c.idxSort(), and(c.idxLe(zero, b), c.idxLt(b, sLen(s.S)), eq(at(newBlk, a), at(oldBlk, b))))), at(newBlk, a)))
+		st.assume(fmt.Sprintf("(forall ((%s %s)) (! %s :pattern (%s)))", a, c.idxSort(), implies(and(c.idxLe(zero, a), c.idxLt(a, sLen(s.S))),
+			fmt.Sprintf("(exists ((%s %s)) %s)", b, c.idxSort(), and(c.idxLe(zero, b), c.idxLt(b, sLen(s.S)), eq(at(oldBlk, a), at(newBlk, b))))), at(oldBlk, a)))
+	}
+	// consequence of being a permutation, stated for the solver: pairwise-distinct sort keys stay pairwise distinct
+	oka, _, _ := keyOf(at(oldBlk, a))
+	okb, _, _ := keyOf(at(oldBlk, b))
+	rng := and(c.idxLe(zero, a), c.idxLt(a, b), c.idxLt(b, sLen(s.S)))
+	st.assume(implies(fmt.Sprintf("(forall ((%s %s) (%s %s)) %s)", a, c.idxSort(), b, c.idxSort(), implies(rng, not(eq(oka, okb)))),
+		fmt.Sprintf("(forall ((%s %s) (%s %s)) %s)", a, c.idxSort(), b, c.idxSort(), implies(rng, not(eq(ka, kb))))))
+	u.eng.noteFuncLit(u, fl)
+	return Term{Tuple: []Term{}}, true
+}
+
 func fixedSize(t types.Type) (int64, bool) {
 	if t == nil {
 		return 0, false
@@ -485,6 +626,9 @@ func (u *Unit) readAtModel(st *State, e *ast.CallExpr, r, p, off Term, sig *type
 // make it a full havoc.
 func (u *Unit) externalCall(st *State, e *ast.CallExpr, callee *types.Func, ca callArgs) Term {
 	sig := callee.Type().(*types.Signature)
+	if ca.isig != nil {
+		sig = ca.isig
+	}
 	all := false
 	var args []Term
 	if ca.recv != nil {
